@@ -21,8 +21,8 @@ import (
 	atypes "github.com/artela-network/aspect-core/types"
 	"github.com/ethereum/go-ethereum/common"
 	"github.com/ethereum/go-ethereum/core/state"
-	"github.com/ethereum/go-ethereum/crypto"
 	upvm "github.com/ethereum/go-ethereum/core/vm"
+	"github.com/ethereum/go-ethereum/crypto"
 	uptracers "github.com/ethereum/go-ethereum/eth/tracers"
 	uplogger "github.com/ethereum/go-ethereum/eth/tracers/logger"
 	_ "github.com/ethereum/go-ethereum/eth/tracers/native"
@@ -51,11 +51,15 @@ func (l forkRec) CaptureTxEnd(g uint64)   { l.r.add("txend %d", g) }
 func (l forkRec) CaptureStart(env *vm.EVM, from, to common.Address, create bool, input []byte, gas uint64, value *big.Int) {
 	l.r.add("start %x %x %v %x %d %v", from, to, create, input, gas, value)
 }
-func (l forkRec) CaptureEnd(out []byte, used uint64, err error) { l.r.add("end %x %d %v", out, used, err) }
+func (l forkRec) CaptureEnd(out []byte, used uint64, err error) {
+	l.r.add("end %x %d %v", out, used, err)
+}
 func (l forkRec) CaptureEnter(typ vm.OpCode, from, to common.Address, input []byte, gas uint64, value *big.Int) {
 	l.r.add("enter %s %x %x %x %d %v", typ, from, to, input, gas, value)
 }
-func (l forkRec) CaptureExit(out []byte, used uint64, err error) { l.r.add("exit %x %d %v", out, used, err) }
+func (l forkRec) CaptureExit(out []byte, used uint64, err error) {
+	l.r.add("exit %x %d %v", out, used, err)
+}
 func (l forkRec) CaptureState(pc uint64, op vm.OpCode, gas, cost uint64, s *vm.ScopeContext, rData []byte, depth int, err error) {
 	l.r.add("step %d op%02x %d %d %d %s mem=%d rd=%x %v", pc, byte(op), gas, cost, depth, stackStr(s.Stack.Data()), s.Memory.Len(), rData, err)
 }
@@ -70,11 +74,15 @@ func (l upRec) CaptureTxEnd(g uint64)   { l.r.add("txend %d", g) }
 func (l upRec) CaptureStart(env *upvm.EVM, from, to common.Address, create bool, input []byte, gas uint64, value *big.Int) {
 	l.r.add("start %x %x %v %x %d %v", from, to, create, input, gas, value)
 }
-func (l upRec) CaptureEnd(out []byte, used uint64, err error) { l.r.add("end %x %d %v", out, used, err) }
+func (l upRec) CaptureEnd(out []byte, used uint64, err error) {
+	l.r.add("end %x %d %v", out, used, err)
+}
 func (l upRec) CaptureEnter(typ upvm.OpCode, from, to common.Address, input []byte, gas uint64, value *big.Int) {
 	l.r.add("enter %s %x %x %x %d %v", typ, from, to, input, gas, value)
 }
-func (l upRec) CaptureExit(out []byte, used uint64, err error) { l.r.add("exit %x %d %v", out, used, err) }
+func (l upRec) CaptureExit(out []byte, used uint64, err error) {
+	l.r.add("exit %x %d %v", out, used, err)
+}
 func (l upRec) CaptureState(pc uint64, op upvm.OpCode, gas, cost uint64, s *upvm.ScopeContext, rData []byte, depth int, err error) {
 	l.r.add("step %d op%02x %d %d %d %s mem=%d rd=%x %v", pc, byte(op), gas, cost, depth, stackStr(s.Stack.Data()), s.Memory.Len(), rData, err)
 }
@@ -457,7 +465,9 @@ func driveDiff(seed uint64, n int, size int, em *Emitter) {
 	r := NewRng(seed)
 	initHost()
 	frameAspects = map[common.Address]*aspectScript{}
-	curProvider = func(ctx context.Context, c common.Address, pc atypes.PointCut) ([]*atypes.AspectCode, error) { return nil, nil }
+	curProvider = func(ctx context.Context, c common.Address, pc atypes.PointCut) ([]*atypes.AspectCode, error) {
+		return nil, nil
+	}
 	for i := 0; i < n; i++ {
 		em.Reset(fmt.Sprintf("diff-%d-%d", seed, i))
 		c := &diffCase{fork: forkNames[r.Intn(12)], codes: map[common.Address][]byte{}, jpOn: r.Bool(), value: big.NewInt(int64([]int{0, 0, 9}[r.Intn(3)]))}
